@@ -785,10 +785,15 @@ impl<'a> SplitNul<'a> {
             }),
     { unimplemented!() }
 }
+/// `init.mechanism.as_str() != PLAIN`
+pub uninterp spec fn sym_is_plain(s: Symbol) -> bool;
+#[verifier::external_body]
+pub fn mechanism_is_not_plain(s: &Symbol) -> (r: bool) ensures r == !sym_is_plain(*s) { unimplemented!() }
 /// RFC 4616: message = [authzid] NUL authcid NUL passwd -- the second and third NUL-separated pieces are the configured user name and password
 pub open spec fn sp_plain_valid(m: SaslPlainMechanism, init: SaslInit) -> bool {
+    &&& sym_is_plain(init.mechanism)                                       // the mechanism selected is the one this acceptor offers (AMQP 5.3.3.2)
     &&& init.initial_response is Some
-    &&& sp_split_nul(init.initial_response->Some_0@).len() >= 3
+    &&& sp_split_nul(init.initial_response->Some_0@).len() == 3           // exactly three pieces: the password cannot contain a NUL, so a fourth piece means the response is not `[authzid] NUL authcid NUL passwd`
     &&& sp_split_nul(init.initial_response->Some_0@)[1] == sp_bytes(m.username@)
     &&& sp_split_nul(init.initial_response->Some_0@)[2] == sp_bytes(m.password@)
 }
@@ -805,6 +810,7 @@ impl SaslPlainMechanism {
 //@@ fn file=fe2o3-amqp/src/acceptor/sasl_acceptor.rs impl=`impl SaslPlainMechanism` name=validate_init
 //@@ subst `.into_vec()` => `` rule=R16
 //@@ subst `response.split(|b| *b == 0u8)` => `split_nul(&response)` rule=R9
+//@@ subst `init.mechanism.as_str() != PLAIN` => `mechanism_is_not_plain(&init.mechanism)` rule=optional-R9
 //@@ spec
     ensures
         (match r { Some(c) => c is Ok || c is Auth, None => true }),
